@@ -77,7 +77,7 @@ func init() {
 		Cfg:        dsim.Config{MaxChaosSteps: 500, MaxStableSteps: 30000, Horizon: 2 * time.Minute},
 		Real:       []string{"crypto/tls (p2ptls): Identity, ConfigForPeer, PubKeyFromCertChain, signed-key extension", "transport/common/quic: DialSession, ListenSession, HandleConn, HandleSession, NewLink/DetermineSessionIdentity", "transport/common/pconn.Transport listener and dialer", "transport/controller.Controller", "quic-go v0.59 and crypto/tls handshakes"},
 		Stub:       []string{"net.PacketConn endpoints on the simulator's datagram network", "the forger is a harness-built quic-go client with crafted certificates", "websocket and WebRTC front-ends are not run; their shared HandleConn path is"},
-		FaultKinds: []string{"fault:forged-copied-extension", "fault:forged-no-extension", "fault:forged-corrupt-asn1", "fault:forged-wrong-signer", "fault:forged-two-certs", "fault:forged-not-self-signed", "fault:forged-replayed-extension", "fault:expected-peer-wrong", "fault:address-rebind", "fault:packet-loss", "fault:packet-dup", "fault:packet-reorder", "fault:packet-corrupt", "fault:clock-jump"},
+		FaultKinds: []string{"fault:forged-copied-extension", "fault:forged-no-extension", "fault:forged-corrupt-asn1", "fault:forged-wrong-signer", "fault:forged-two-certs", "fault:forged-not-self-signed", "fault:forged-replayed-extension", "fault:forged-valid-copied-serial", "fault:expected-peer-wrong", "fault:address-rebind", "fault:packet-loss", "fault:packet-dup", "fault:packet-reorder", "fault:packet-corrupt", "fault:clock-jump"},
 	})
 }
 
@@ -168,6 +168,19 @@ func (w *c03World) forgedCert(kind string, victim, forger *sig.Party) tls.Certif
 		victimCertKey, _ := ecdsa.GenerateKey(elliptic.P256(), rand.Reader)
 		ext, _ := p2ptls.GenerateSignedExtension(victim.Priv, victimCertKey.Public())
 		tmpl.ExtraExtensions = append(tmpl.ExtraExtensions, ext)
+	case "valid-copied-serial":
+		// a correct chain for F's OWN identity whose serial number is the one of the
+		// certificate the victim's transport presents (serial numbers are public and not
+		// unique across issuers; every peer is its own issuer)
+		ext, err := p2ptls.GenerateSignedExtension(forger.Priv, certKey.Public())
+		if err != nil {
+			panic(err)
+		}
+		tmpl.ExtraExtensions = append(tmpl.ExtraExtensions, ext)
+		if sn := w.liveSerial(victim); sn != nil {
+			tmpl.SerialNumber = sn
+			w.s.Count("probe:copied-live-serial")
+		}
 	case "replayed-extension":
 		// the extension exactly as it appears on the certificate the victim presents to
 		// everybody (anyone who connects to the victim sees it), placed on F's certificate key
@@ -218,6 +231,24 @@ func (w *c03World) forgedCert(kind string, victim, forger *sig.Party) tls.Certif
 	return tls.Certificate{Certificate: chain, PrivateKey: certKey}
 }
 
+// liveSerial returns the serial number of the certificate the victim's transport presents.
+func (w *c03World) liveSerial(victim *sig.Party) *big.Int {
+	for _, nm := range []string{"A", "B", "C"} {
+		tc := w.tcs[nm]
+		if tc == nil || tc.P.ID != victim.ID || tc.Quic == nil {
+			continue
+		}
+		conf, _ := tc.Quic.GetIdentity().ConfigForPeer("")
+		if len(conf.Certificates) == 0 || len(conf.Certificates[0].Certificate) == 0 {
+			continue
+		}
+		if cert, err := x509.ParseCertificate(conf.Certificates[0].Certificate[0]); err == nil {
+			return cert.SerialNumber
+		}
+	}
+	return nil
+}
+
 // liveExtension returns the signed-key extension of the certificate that the victim's
 // running transport presents in its handshakes.
 func (w *c03World) liveExtension(victim *sig.Party) (pkix.Extension, bool) {
@@ -245,7 +276,7 @@ func (w *c03World) liveExtension(victim *sig.Party) (pkix.Extension, bool) {
 	return pkix.Extension{}, false
 }
 
-var c03ForgeKinds = []string{"valid", "copied-extension", "no-extension", "corrupt-asn1", "wrong-signer", "two-certs", "not-self-signed", "replayed-extension"}
+var c03ForgeKinds = []string{"valid", "copied-extension", "no-extension", "corrupt-asn1", "wrong-signer", "two-certs", "not-self-signed", "replayed-extension", "valid-copied-serial"}
 
 func (w *c03World) forge(victimNode string) {
 	s := w.s
@@ -257,8 +288,12 @@ func (w *c03World) forge(victimNode string) {
 	pc := w.pn.Listen(name, addr)
 	forger := w.net.Party("F")
 	// what identity may this endpoint legitimately prove?
-	if kind == "valid" {
+	if kind == "valid" || kind == "valid-copied-serial" {
+		// (both are correct chains for F's own identity: a link may name F, nobody else)
 		w.ident[name] = forger.ID
+		if kind != "valid" {
+			s.Count("fault:forged-" + kind)
+		}
 	} else {
 		s.Count("fault:forged-" + kind)
 	}
